@@ -23,7 +23,7 @@ RULE = ("one element = (tomography type, flag, system, unknown outcome count, te
         "every sub-list missing 1 (or 2) schedules, "
         "repetitions, all permutations of two 3-schedule lists; per element the model is compared on the full affine basis "
         "of variable space (0 and every unit vector) and on a physical affine basis of the feasible set; non-trivial = "
-        "the list has >= 2 schedules or unequal outcome counts; distinct = distinct (configuration, schedule list)")
+        "the list has >= 2 schedules; distinct = distinct (configuration, schedule list)")
 ASSUMPTIONS = ["the unknown's variables are mapped to objects by the documented parametrisation (mc/frames.py: implied part "
                "dropped: state first coefficient, povm last element, gate first HS row, mprocess first row of the last HS)",
                "tester objects are the named finite pools; bases are the normalised Pauli / Gell-Mann bases",
@@ -32,7 +32,8 @@ ASSUMPTIONS = ["the unknown's variables are mapped to objects by the documented 
                "objects handed to calc_prob_dists carry the same on_para_eq_constraint flag as the tomography"]
 BOUNDS = {"quick": "Q1, Q3; povmt m=2..4, qmpt m=2..4 on Q1, m=2..3 (m=4 on one tester set) on Q3; sub-lists: all sizes when "
                    "<= 6 schedules, else sizes <= k with at most 700 sub-lists (k>=1); deletions of 1 schedule, of 2 when <= 350 lists",
-          "thorough": "adds Q2 (qmpt m=2, m=3..4 on two tester sets), Q3 qmpt m=4 everywhere; sub-list cap 4000"}
+          "thorough": "adds Q2 with product testers (qmpt m=2 on 4 tester sets, m=3..4 on two), Q3 qmpt m=4 everywhere; sub-list cap "
+                      "4000, deletions of 2 schedules when <= 2000 lists"}
 EXHAUSTIVE = {"quick": True, "thorough": True}
 CASE_TIMEOUT = 3600
 CHUNK = 1
